@@ -22,6 +22,7 @@ fuzz_target!(|data: &[u8]| {
         kind: u.int_in_range(0..=5usize).unwrap_or(0),
         transient: u.arbitrary().unwrap_or(false),
         hide_baud: u.arbitrary().unwrap_or(false),
+        write_resets_timeout: u.arbitrary().unwrap_or(false),
     };
     let mut st = Stats::new();
     if let Err(m) = check_port(&c, &mut st) {
